@@ -261,7 +261,7 @@ func c22ValCmp(a, b any) int {
 
 // c22Val: slot v (catalog value), b (catalog map-body field), p (profile field). desc2 != "" saves a second
 // value over the first one before reading.
-func c22Val(sdk *miscSDK, idx int, slot, kind, om, desc, desc2 string) (out string) {
+func c22Val(sdk *miscSDK, idx int, enc, slot, kind, om, desc, desc2 string) (out string) {
 	defer func() {
 		if r := recover(); r != nil {
 			fmt.Fprintf(os.Stderr, "c22 val %s %s %s: panic %v\n", slot, kind, desc, r)
@@ -317,9 +317,10 @@ func c22Val(sdk *miscSDK, idx int, slot, kind, om, desc, desc2 string) (out stri
 		}
 		return m
 	}
-	ctx, cancel := context.WithTimeout(context.Background(), 10*time.Second)
+	ctx, cancel := context.WithTimeout(context.Background(), HxScale(30*time.Second))
 	defer cancel()
-	swamp := sdkname.New().Sanctuary("c22").Realm("val" + slot).Swamp("s" + strconv.Itoa(idx))
+	// enc "m": a sanctuary registered with EncodingMsgPack (complex values and map bodies travel as msgpack instead of gob)
+	swamp := sdkname.New().Sanctuary("c22" + enc).Realm("val" + slot).Swamp("s" + strconv.Itoa(idx))
 	save := func(v any) error {
 		if slot == "p" {
 			return sdk.H.ProfileSave(ctx, swamp, build(v).Interface())
@@ -330,11 +331,17 @@ func c22Val(sdk *miscSDK, idx int, slot, kind, om, desc, desc2 string) (out stri
 	defer func() { _ = sdk.H.Destroy(context.Background(), swamp) }()
 	if err := save(val); err != nil {
 		fmt.Fprintf(os.Stderr, "c22 val %s %s %s: save: %v\n", slot, kind, desc, err)
+		if miscIsTimeout(err) {
+			return "timeout"
+		}
 		return "err"
 	}
 	if desc2 != "" {
 		if err := save(val2); err != nil {
 			fmt.Fprintf(os.Stderr, "c22 val %s %s %s: second save: %v\n", slot, kind, desc2, err)
+			if miscIsTimeout(err) {
+				return "timeout"
+			}
 			return "err"
 		}
 	}
@@ -347,6 +354,9 @@ func c22Val(sdk *miscSDK, idx int, slot, kind, om, desc, desc2 string) (out stri
 	}
 	if err != nil {
 		fmt.Fprintf(os.Stderr, "c22 val %s %s %s: read: %v\n", slot, kind, desc, err)
+		if miscIsTimeout(err) {
+			return "timeout"
+		}
 		return "err"
 	}
 	if slot != "v" && back.Elem().Field(xi+1).String() != "zv" {
